@@ -38,7 +38,7 @@ SCALES = [2, 0.5, 3, 0.25, 4, 10]
 def strategy_(draw, tier):
     big = tier == "thorough"
     case = draw(gen.model_cases(classes=["MinFlowDecompCycles"], max_nodes=7 if big else 5, noise=False, p_opts=0, p_se=0, p_constr=3, p_ignore=5, p_node=5, weight_types=("int",)))
-    mode = draw(st.sampled_from(["default", "default", "opts", "mgs", "guess"]))
+    mode = draw(st.sampled_from(["default", "mgs", "opts", "mgs", "guess", "default"]))
     opts = {}
     if mode == "opts":
         opts = draw(gen.option_dicts("MinFlowDecompCycles"))
